@@ -443,7 +443,8 @@ def conv_case():
         'collection): nnx_attrs_to_linen_vars(linen_vars_to_nnx_attrs(v)) == v '
         'incl. box type and axis names <-> sharding metadata; variable_type_'
         'from_name / variable_name_from_type are mutually inverse on '
-        'registered and freshly registered names; non-trivial = >=2 '
+        'registered and freshly registered names, also after a name was '
+        're-registered for another type with overwrite=True; non-trivial = >=2 '
         'collections and a Partitioned leaf')
 def conversions(case, ctx):
   spec, fresh = case
@@ -535,6 +536,37 @@ def conversions(case, ctx):
             'fresh name/type registration is not inverse')
     expect_raises(ValueError, lambda: variablelib.variable_type_from_name(
         fresh + '_unregistered'), 'unregistered name without allow_register')
+    # a name re-registered for another type (overwrite=True): the name now
+    # belongs to the new type only
+    T1 = type('OldStats', (nnx.Variable,), {})
+    T2 = type('NewStats', (nnx.Variable,), {})
+    nm = fresh + '_stats'
+    with sut('register / overwrite'):
+      variablelib.register_variable_name(nm, T1)
+      require(variablelib.variable_name_from_type(T1) == nm,
+              'registered type does not map to its name')
+      expect_raises(ValueError,
+                    lambda: variablelib.register_variable_name(nm, T2),
+                    'registering a taken name without overwrite')
+      variablelib.register_variable_name(nm, T2, overwrite=True)
+    require(variablelib.variable_type_from_name(nm) is T2 and
+            variablelib.variable_name_from_type(T2) == nm,
+            'after overwrite the name and the new type are not inverse')
+    try:
+      n1 = variablelib.variable_name_from_type(T1, allow_register=True)
+    except ValueError:
+      n1 = None
+    require(n1 != nm and (n1 is None or
+                          variablelib.variable_type_from_name(n1) is T1),
+            lambda: f'after {nm!r} was re-registered for NewStats the old type '
+            f'still maps to {n1!r}, whose type is '
+            f'{variablelib.VariableTypeCache.get(n1)}')
+    with sut('conversion after overwrite'):
+      lv = bv.nnx_attrs_to_linen_vars({'a': T2(jnp.ones(2)),
+                                       'b': T1(jnp.zeros(2))})
+    require(set(lv.get(nm, {})) == {'a'}, lambda: f'collection {nm!r} holds '
+            f'{sorted(lv.get(nm, {}))} after the conversion; only the '
+            'NewStats variable belongs there')
     ctx.note(nontrivial=len(V) >= 2 and has_part)
   finally:
     variablelib.VariableTypeCache.clear()
